@@ -1,6 +1,7 @@
 import PoxModel.Base.Proto
 import PoxModel.Model.MatchV
 import PoxModel.Spec.OF10Match
+import PoxModel.Spec.OF10Frame
 /-! Line-protocol driver for C03: evaluates the model (`Model/Match`, `Model/FlowTable`) and, separately, the specification
 (`Spec/OF10Match`) on the inputs the harness also gives to the real code.
 
@@ -19,7 +20,7 @@ Every request carries `"v":[arpLow8, prereqExact, exactSig, tosDscp]`: which of 
 * `{"op":"selfflow","phdr":P,"port":n|null,"swport":n,"sf":bool,"blank":[1..12]?}` → `{"m":[wildcards, 12 views],"wire":rec,"m2w":wildcards after
      unpack,"hit":0|1,"exact":0|1,"spec":0|1}`
 
-`P = {"src","dst","typ","llc":null|[oui|null,ethType],"vlan":null|[id,pcp,ethType],"l3":null|["ip",s,d,proto,tos,frag,l4]|["arp",op,s,d]}`,
+`P = hex string of the frame's bytes (complete frames: description by `Spec.Frame.parse`) | {"src","dst","typ","llc":null|[oui|null,ethType],"vlan":null|[id,pcp,ethType],"l3":null|["ip",s,d,proto,tos,frag,l4]|["arp",op,s,d]}`,
 `l4 = null|["p",src,dst]|["i",type,code]`; `rec = [wildcards,in_port,dl_src,dl_dst,dl_vlan,dl_vlan_pcp,dl_type,nw_tos,nw_proto,nw_src,nw_dst,tp_src,tp_dst]`. -/
 open Pox Pox.Proto Pox.OF
 
@@ -47,7 +48,16 @@ def l3Of (j : J) : Except String L3 := do
   | [J.str "arp", op, s, d] => pure (.arp (← op.asNat) (← s.asNat) (← d.asNat))
   | _ => bad "l3"
 
+/-- a frame is given either as its bytes (hex string; the description is then read off the bytes by `Spec.Frame.parse`, and the
+    frame must be complete) or — for incomplete frames, where only model and code are compared — as a description -/
 def phdrOf (j : J) : Except String PHdr := do
+  if let J.str s := j then
+    match Pox.Proto.fromHex s with
+    | none => return ← bad "frame: hex expected"
+    | some bs =>
+      match Spec.Frame.parse (bs.map (·.toNat)) with
+      | some (p, true) => return p
+      | _ => return ← bad "frame: not complete (Spec.Frame.parse)"
   let llcJ ← j.get "llc"
   let llc : Option Llc ← (if llcJ.isNull then pure none else do
     match ← llcJ.asArr with
